@@ -3,7 +3,8 @@
 From Coq Require Import List ZArith NArith Bool.
 From Coq.Strings Require Import Byte.
 From L4.model Require Import Select.
-From L4.proofs Require Import SelectProofs SelectHrwProofs.
+From Coq Require Import Sorted.
+From L4.proofs Require Import SelectProofs SelectHrwProofs SelectRRProofs.
 Import ListNotations.
 Open Scope Z_scope.
 
@@ -63,6 +64,23 @@ Theorem C10_round_robin_next_available : forall pool robin i r',
   robin < r' <= robin + Z.of_nat (length pool) /\ i = Z.to_nat (r' mod Z.of_nat (length pool)) /\
   avail_pos pool r' = true /\ forall p, robin < p < r' -> avail_pos pool p = false.
 Proof. exact round_robin_next. Qed.
+(* over any sequence of selections (no wrap): every selection succeeds, the counters increase strictly,
+   every selected upstream is available, and NO available position between the start and the last
+   selection is skipped - so the run visits exactly the available upstreams in cyclic order *)
+Theorem C10_round_robin_run : forall pool m robin,
+  some_available pool -> 0 <= robin -> robin + (Z.of_nat m + 1) * Z.of_nat (length pool) < two32 ->
+  let run := rr_run pool robin m in
+  length run = m /\
+  robin <= last_pos robin run <= robin + Z.of_nat m * Z.of_nat (length pool) /\
+  (forall i r, In (i, r) run -> robin < r /\ i = Z.to_nat (r mod Z.of_nat (length pool)) /\ avail_pos pool r = true) /\
+  (forall p, robin < p <= last_pos robin run -> avail_pos pool p = true -> In p (map snd run)) /\
+  StronglySorted Z.lt (map snd run).
+Proof. exact rr_run_spec. Qed.
+(* ... and two visits less than one pool length apart are to different upstreams: once per cycle *)
+Theorem C10_round_robin_once_per_cycle : forall (pool : list upstream) i1 r1 i2 r2,
+  0 < Z.of_nat (length pool) -> 0 <= r1 -> r1 < r2 < r1 + Z.of_nat (length pool) ->
+  i1 = Z.to_nat (r1 mod Z.of_nat (length pool)) -> i2 = Z.to_nat (r2 mod Z.of_nat (length pool)) -> i1 <> i2.
+Proof. exact rr_distinct_within_cycle. Qed.
 Theorem C10_round_robin_no_panic : forall pool robin, fst (round_robin pool robin) <> Panic.
 Proof. exact round_robin_nopanic. Qed.
 
@@ -128,6 +146,8 @@ Print Assumptions C10_ip_hash_complete.
 Print Assumptions C10_ip_hash_stable_under_removal.
 Print Assumptions C10_ip_hash_depends_on_available_only.
 Print Assumptions C10_round_robin_next_available.
+Print Assumptions C10_round_robin_run.
+Print Assumptions C10_round_robin_once_per_cycle.
 Print Assumptions C10_random_choose_sound.
 Print Assumptions C10_random_choose_complete.
 Print Assumptions C10_random_choose_no_panic.
